@@ -82,3 +82,16 @@ def run_http(ck):
         ck.violation({"property": "C01", "kind": "model/implementation disagree on an HTTP script; the C01 monitors still accept every observed trace",
                       "case": worst, "broken": "correspondence PushHandler.gstep (doParse/doPush/retry) vs writer/controller"}, no_input=True)
     ic.coverage_level2(ck, res)
+    soak = ic.run_soak(ck, "C01")
+    if soak is not None:
+        ck.obligation("soak TEST (real timers, concurrent clients): every push answered while the database kept answering", not soak["broken"],
+                      "; ".join(c["err"] for c in soak["broken"])[:500])
+        ck.obligation("soak TEST: the C01 monitors accept the observed event log", not soak["v1"], "violating runs: %s" % soak["v1"])
+        if soak["v1"] or soak["broken"]:
+            bad = [soak["byid"][i] for i in soak["v1"]] or soak["broken"]
+            c = dict(bad[0])
+            ck.violation({"property": "C01", "kind": "soak test: a push was acknowledged without a successful INSERT holding its rows, answered twice, or never answered",
+                          "note": "observed under real timers and concurrency; the log below is the evidence, re-running may take another interleaving",
+                          "case": {"id": c["id"], "attempts": c.get("attempts"), "err": c.get("err"), "reqs": [{"route": r["route"], "items": r["items"]} for r in c["reqs"]],
+                                   "obs": c.get("obs")},
+                          "replay": "harness ingest --level 3 --seed <seed> --n <n> (timing dependent)"})
